@@ -69,6 +69,7 @@ def xor_ref(mask: bytes, data: bytes) -> bytes:
     return bytes(out)
 
 
+REJECT_PAYLOAD_LENS = (0, 1, 3, 4, 7, 8, 9, 64, 70000)   # the mask-length check must not depend on the payload
 MASKS = [b"\x00\x00\x00\x00", b"\xff\xff\xff\xff", b"\x01\x02\x03\x04", b"\x80\x00\x7f\xfe"]
 
 
@@ -79,9 +80,14 @@ def child_main(argv):
     masks = MASKS + [bytes(rng.randrange(256) for _ in range(4)) for _ in range(3 if kind == "driver" else 4)]
     res = {"calls": 0, "mismatch": [], "reject_checks": 0, "reject_fail": [], "covered": []}
     lengths = list(range(lo, hi))
+    if lo == 0:
+        # "any length": a few payloads around and beyond 64 KiB / 1 MiB in every tier (size-dependent fast paths)
+        for k in (1 << 16, 1 << 17, 1 << 20):
+            lengths += [k - 1, k, k + 1, k + 31, k + 33]
     if big:
         for k in (1 << 16, 1 << 20):
             lengths += [k - 9, k - 1, k, k + 1, k + 7, k + 13]
+        lengths += [(1 << 22) + 5, (1 << 24) + 3]
     pool = bytes(rng.randrange(256) for _ in range(8192))
     counter = bytes((i * 7 + 3) & 0xFF for i in range(256))
 
@@ -116,18 +122,19 @@ def child_main(argv):
                                                 "rc": rc, "first_diff": _first_diff(got, xor_ref(mask, data))})
                 res["covered"].append((n, in_off, out_off, mi))
         for ml in (0, 1, 2, 3, 5, 6, 7, 8):
-            out = ctypes.create_string_buffer(16)
-            rc = lib.vf_drive(bytes(range(ml)), ml, b"abcdefgh", 8, 0, 0, out)
-            res["reject_checks"] += 1
-            if rc != 1:
-                res["reject_fail"].append({"mask_len": ml, "rc": rc})
+            for pl in REJECT_PAYLOAD_LENS:
+                out = ctypes.create_string_buffer(max(16, pl))
+                rc = lib.vf_drive(bytes(range(ml)), ml, b"p" * pl, pl, 0, 0, out)
+                res["reject_checks"] += 1
+                if rc != 1:
+                    res["reject_fail"].append({"mask_len": ml, "payload_len": pl, "rc": rc})
     else:
         mod = san.load_ext(path)
         f = mod.websocket_mask
         from tornado.util import _websocket_mask_python as pyf
         for n in lengths:
             for mi, mask in enumerate(masks):
-                if n > 4096 and mi > 3:
+                if n > 4096 and mi not in (2, 3, len(masks) - 1):
                     continue
                 data = payload(n, (n + mi) % 3)
                 got = f(mask, data)
@@ -140,14 +147,15 @@ def child_main(argv):
                     res["mismatch"].append({"len": n, "mask": mask.hex(), "python_impl_differs": True})
                 res["covered"].append((n, 0, 0, mi))
         for ml in (0, 1, 2, 3, 5, 6, 7, 8):
-            res["reject_checks"] += 1
-            try:
-                r = f(bytes(range(ml)), b"abcdefgh")
-                res["reject_fail"].append({"mask_len": ml, "returned": repr(r)[:40]})
-            except ValueError:
-                pass
-            except Exception as e:
-                res["reject_fail"].append({"mask_len": ml, "raised": repr(e)})
+            for pl in REJECT_PAYLOAD_LENS:
+                res["reject_checks"] += 1
+                try:
+                    r = f(bytes(range(ml)), b"p" * pl)
+                    res["reject_fail"].append({"mask_len": ml, "payload_len": pl, "returned": repr(r)[:40]})
+                except ValueError:
+                    pass
+                except Exception as e:
+                    res["reject_fail"].append({"mask_len": ml, "payload_len": pl, "raised": repr(e)})
     print("VFRESULT " + json.dumps(res))
 
 
